@@ -22,12 +22,18 @@ type OpSpec struct {
 // Hist: certificates are issued first; then every op index occurs three times in Sched (phase A:
 // up to the entry of the storage call, B: the call, C: the rest); -1 = restart.
 type Hist struct {
-	CRL   bool // CRL enabled with GenerateOnRevoke
-	NX    int  // X.509 certificates
-	NXE   int  // further X.509 certificates (pool indices NX…) that expired 2 h .. 30 d ago; provisioner jwk allows renewal after expiry
-	NS    int  // SSH host certificates
-	Ops   []OpSpec
-	Sched []int
+	CRL bool // CRL enabled with GenerateOnRevoke
+	NX  int  // X.509 certificates
+	NXE int  // further X.509 certificates (pool indices NX…) that expired 2 h .. 30 d ago; provisioner jwk allows renewal after expiry
+	NS  int  // SSH host certificates
+	// Small: the SSH certificates are crafted (signed with the CA's SSH host key) with the serials smallSerials[SmallOff+i]
+	Small    bool
+	SmallOff int
+	// Linked: a linked CA (the real linked-CA client over an in-memory Majordomo service): revocations and the renewal gates
+	// go to the service; model machine lmachine (line `lh`)
+	Linked bool
+	Ops    []OpSpec
+	Sched  []int
 }
 
 var errAbort = errors.New("process stopped")
@@ -47,10 +53,19 @@ type evt struct {
 	code int
 }
 
+// serials of crafted SSH certificates (Hist.Small): decimal forms that are octal numbers too, next to the number the octal reading
+// denotes (16 and 14 = 016 octal, 10 and 8, 100 and 64), and small numbers
+var smallSerials = []uint64{16, 14, 10, 8, 100, 64, 7, 1}
+
 func runHist(h *Hist) (string, string) {
 	n := len(h.Ops)
 	hooks := &ss.Hooks{}
-	e := newEnv(hooks, h.CRL)
+	var e *env
+	if h.Linked {
+		e = newLinkedEnv(hooks)
+	} else {
+		e = newEnv(hooks, h.CRL)
+	}
 	defer func() { e.ca.Close() }()
 	xs := make([]*x509Cert, h.NX+h.NXE)
 	for i := range xs {
@@ -62,7 +77,11 @@ func runHist(h *Hist) (string, string) {
 	}
 	sshs := make([]*sshCert, h.NS)
 	for i := range sshs {
-		sshs[i] = e.issueSSH()
+		if h.Small {
+			sshs[i] = e.craftSSH(smallSerials[(h.SmallOff+i)%len(smallSerials)])
+		} else {
+			sshs[i] = e.issueSSH()
+		}
 	}
 	events := make(chan evt, 4*n+4)
 	gates := make([]chan bool, n)
@@ -301,7 +320,11 @@ func runHist(h *Hist) (string, string) {
 		}
 	}
 	cur = -1
-	in := fmt.Sprintf("h reqs=%s evs=%s", strings.Join(reqIn, ";"), c.List(evs))
+	line := "h"
+	if h.Linked {
+		line = "lh"
+	}
+	in := fmt.Sprintf("%s reqs=%s evs=%s", line, strings.Join(reqIn, ";"), c.List(evs))
 	impl := strings.Join(answers, ",") + " x=" + dumpTable(e, "revoked_x509_certs") + " s=" + dumpTable(e, "revoked_ssh_certs")
 	// relying parties without OCSP: what the CRL says and what the renewal gate says must agree. With CRL publication on,
 	// a list generated now contains exactly the serials of the revoked table whose certificate did not expire more than 1 h ago.
@@ -356,7 +379,7 @@ func runHist(h *Hist) (string, string) {
 			if !isRevoke(oj.Kind) && startAt[j] > doneAt[i] && strings.HasSuffix(answers[j], "allowed") { // "early-allowed": answered without reading the table at all
 				impl += " VIOLATION=renewed-after-acknowledged-revocation"
 			}
-			if isRevoke(oj.Kind) && answers[j] == "ok" && j > i {
+			if isRevoke(oj.Kind) && answers[j] == "ok" && j > i && !h.Linked { // (the linked CA service acknowledges every revocation)
 				impl += " VIOLATION=two-acknowledged-revocations"
 			}
 		}
@@ -398,6 +421,16 @@ func cornerHists() []*Hist {
 		{NS: 3, Ops: []OpSpec{{"hrenewssh", 0, 0, "n"}, {"hrekeyssh", 0, 0, "n"}, {"revpopssh", 0, 0, "n"}, {"hrenewssh", 0, 0, "n"}, {"hrekeyssh", 0, 0, "n"}, {"revpopssh", 0, 0, "n"},
 			{"revssh", 1, 0, "n"}, {"hrenewssh", 1, 0, "n"}, {"revpopssh", 1, 0, "n"}, {"hrekeyssh", 1, 0, "n"}, {"hrenewssh", 2, 0, "n"}, {"renewssh", 0, 0, "n"}, {"revssh", 0, 2, "n"}},
 			Sched: append(append(append(seqSched(8), -1), 8, 8, 8), 9, 9, 9, 10, 10, 10, 11, 11, 11, 12, 12, 12)},
+		// crafted SSH certificates 16 and 14: "016" (decimal 16; read as octal it would be 14) revokes certificate 16 and nothing else:
+		// 16 is refused afterwards (handler and direct), 14 stays renewable until its own revocation; "0010" is 10, not 8
+		{NS: 4, Small: true, Ops: []OpSpec{{"revssh", 0, 1, "n"}, {"renewssh", 0, 0, "n"}, {"hrenewssh", 0, 0, "n"}, {"renewssh", 1, 0, "n"}, {"hrekeyssh", 1, 0, "n"}, {"revssh", 1, 0, "n"}, {"renewssh", 1, 0, "n"},
+			{"revssh", 2, 4, "n"}, {"renewssh", 2, 0, "n"}, {"renewssh", 3, 0, "n"}, {"revpopssh", 3, 0, "n"}, {"rekeyssh", 3, 0, "n"}}, Sched: seqSched(12)},
+		// linked CA: revocations are RPCs to the linked CA service, the renewal gates ask it: acknowledged revocations block X.509 and SSH renewals
+		// (every route), an RPC that fails (before / after it was performed) is a 500 and never an acknowledgement, also across a restart of the CA
+		{Linked: true, NX: 2, NS: 2, Ops: []OpSpec{{"renew", 0, 0, "n"}, {"revtok", 0, 1, "b"}, {"renew", 0, 0, "n"}, {"revtok", 0, 0, "n"}, {"renew", 0, 0, "n"}, {"rekey", 0, 0, "n"}, {"renewtok", 0, 0, "n"},
+			{"revssh", 0, 0, "b"}, {"renewssh", 0, 0, "n"}, {"hrenewssh", 0, 0, "n"}, {"revssh", 0, 0, "a"}, {"renewssh", 0, 0, "n"}, {"revpopssh", 1, 0, "n"}, {"hrekeyssh", 1, 0, "n"}, {"revmtls", 1, 0, "n"},
+			{"renew", 1, 0, "n"}, {"revssh", 1, 0, "n"}, {"renew", 1, 0, "b"}},
+			Sched: append(append(seqSched(12), -1), 12, 12, 12, 13, 13, 13, 14, 14, 14, 15, 15, 15, 16, 16, 16, 17, 17, 17)},
 		// expired certificates (renewable after expiry): through the renew-token route (made for them; the environment's CA is 90 days
 		// old so that they chain at their own time) and presented as peer certificate: renewed before, refused after the revocation
 		// (by token: expiry taken from the certificate table; over mTLS: from the presented certificate), also after a restart
@@ -445,6 +478,20 @@ func genHist(r *c.Rng) *Hist {
 			}
 		}
 		h.Ops = append(h.Ops, op)
+	}
+	if h.NS > 0 && r.Chance(1, 3) {
+		h.Small, h.SmallOff = true, 2*r.Intn(4)
+	}
+	if r.Chance(1, 6) {
+		h.Linked, h.CRL, h.NXE = true, false, 0
+		for i := range h.Ops {
+			if !isSSH(h.Ops[i].Kind) && h.Ops[i].Cert >= h.NX {
+				h.Ops[i].Cert = r.Intn(h.NX)
+			}
+			if h.Ops[i].Fault == "c" {
+				h.Ops[i].Fault = "n"
+			}
+		}
 	}
 	i := 0
 	for i < n {
